@@ -402,9 +402,17 @@ def render_stream(run, ck, cases, hs):
         ck.stats["render-cases"] += 1
         run.count(("render", texts[k]))
         if d.get("st") != "ok":
-            ck.violation("C19-render-rejected", {"kind": "correspondence-broken", "input": texts[k], "impl_output": d, "model_output": cases[i]["sexp"][:400],
+            # the known lexer-goal defect (an empty arrow body `=>{}` closed by `)` and followed by `/` is lexed as a regular
+            # expression) shows in the minimal rendering too: same class as in the parser comparison, computed from the text:
+            # the defect is the cause iff the same text with a non-empty body (`=>{0}`) parses.
+            cls, found = "C19-render-rejected", False
+            if re.search(r"=>\{\}\)*/", texts[k]):
+                alt = re.sub(r"=>\{\}(\)*/)", r"=>{0}\1", texts[k])
+                if ck.tools.rt([alt], dump=False)[0].get("st") == "ok":
+                    cls, found = "C19-parse-div-after-empty-arrow", True
+            ck.violation(cls, {"kind": "counterexample" if found else "correspondence-broken", "input": texts[k], "impl_output": d, "model_output": cases[i]["sexp"][:400],
                          "obligation": "boa parses the model's minimal rendering of a parser-shaped program (parse_print_text on the implementation)"},
-                         found_input=False)
+                         found_input=found)
         elif d.get("sexp") is not None and d["sexp"] != cases[i]["sexp"]:
             ck.violation("C19-render-ast-differs", {"kind": "correspondence-broken", "input": texts[k], "impl_output": d["sexp"], "model_output": cases[i]["sexp"],
                          "obligation": "boa's AST of the model's minimal rendering = the AST (parse_print_text on the implementation)"}, found_input=False)
